@@ -399,7 +399,7 @@ OPS = {   # every property exercises the root specification with the calls IT ta
     "C13": {"read", "readdirs"},
     "C15": {"readconfig_opt", "readconfig", "get"},
     "C09": {"read", "new", "set", "typed"},
-    "C17": {"read", "readdirs", "set", "ext"},
+    "C17": {"read", "readdirs", "set", "ext", "write", "merge"},
     "C12": {"readdirs", "readhist", "confdirs", "get"},
     "ALL": None,
 }
